@@ -165,10 +165,31 @@ func opCliGenHar(a []Sx) Sx {
 	_, derr := runTool(nil, nil, "dump-bundle", "-i", out)
 	xs := []Sx{}
 	for _, e := range b.Exchanges {
-		xs = append(xs, L(B([]byte(e.Request.URL.String())), Zi(int64(e.Response.Status)), B(e.Response.Body)))
+		xs = append(xs, bexchangeSx(e))
 	}
 	sort.SliceStable(xs, func(i, j int) bool { return bytes.Compare(xs[i].L[0].B, xs[j].L[0].B) < 0 })
 	return L(Sym("ok"), Bool(derr == nil), L(xs...))
+}
+
+// cli_gen_primary ver primary tree: gen-bundle WITHOUT -ignoreErrors: Bundle.Validate must accept a primary
+// URL that has an exchange and refuse one that has none
+func opCliGenPrimary(a []Sx) Sx {
+	d, clean := tmpDir()
+	defer clean()
+	root := filepath.Join(d, "root")
+	os.MkdirAll(root, 0755)
+	if err := writeTree(root, a[2].L); err != nil {
+		return L(Sym("skip"))
+	}
+	out := filepath.Join(d, "out.wbn")
+	args := []string{"-version", string(a[0].B), "-dir", root, "-baseURL", "https://example.com/site/", "-o", out, "-primaryURL", string(a[1].B)}
+	if _, err := runTool(nil, nil, "gen-bundle", args...); err != nil {
+		return L(Sym("refused"))
+	}
+	if _, err := runTool(nil, nil, "dump-bundle", "-i", out); err != nil {
+		return fail("dump-bundle rejects gen-bundle output", "")
+	}
+	return L(Sym("ok"))
 }
 
 // cli_sign_refuse kind: inputs for which sign-bundle signatures-section must refuse rather than
@@ -464,6 +485,38 @@ func genC20(r *Rng, tier string) []Case {
 	for i, k := range []string{"keymismatch", "keymismatch", "rs0", "rsneg", "rs16385", "emptydigest"} {
 		cs = append(cs, Case{"cli_sign_refuse", []Sx{Sym(k), Zi(int64(i))}})
 	}
+	// Bundle.Validate through gen-bundle (no -ignoreErrors): the primary URL must have an exchange
+	{
+		tree := []Sx{L(B([]byte("")), Zi(1), B(nil)), L(B([]byte("index.html")), Zi(0), B([]byte("<html>hi</html>"))), L(B([]byte("a.txt")), Zi(0), B([]byte("aaa")))}
+		for _, ver := range []string{"b1", "b2"} {
+			for _, pu := range []string{"https://example.com/site/", "https://example.com/site/a.txt", "https://example.com/site/missing.txt", "https://example.com/other/", "https://example.com/site/index.html"} {
+				cs = append(cs, Case{"cli_gen_primary", []Sx{Sym(ver), B([]byte(pu)), L(tree...)}})
+			}
+		}
+	}
+	// HAR: the Variants rule for repeated URLs (kept only if every entry for the URL carries Variants), and
+	// headers after a pseudo header
+	for i := 0; i < 12; i++ {
+		u := "https://example.com/v"
+		mk := func(hasV bool, body string) Sx {
+			hs := []Sx{L(B([]byte(":status")), B([]byte("200"))), L(B([]byte("Content-Type")), B([]byte("text/plain")))}
+			if hasV {
+				hs = append(hs, L(B([]byte("Variants")), B([]byte("Accept-Language;en;fr"))), L(B([]byte("Variant-Key")), B([]byte(body))))
+			}
+			hs = append(hs, L(B([]byte("X-After")), B([]byte("kept"))))
+			return L(B([]byte(u)), B([]byte("GET")), Zi(200), L(hs...), B([]byte(body)), Zi(0))
+		}
+		pat := [][]bool{{true, true}, {true, false}, {false, true}, {false, false}, {true, false, true}, {false, true, true}}[i%6]
+		ents := []Sx{}
+		for j, v := range pat {
+			ents = append(ents, mk(v, []string{"en", "fr", "en"}[j]))
+		}
+		if i < 6 {
+			cs = append(cs, Case{"cli_gen_har", []Sx{Sym("b1"), B([]byte("https://example.com/v")), L(ents...)}})
+		} else {
+			cs = append(cs, Case{"cli_gen_har", []Sx{Sym("b2"), L(), L(ents...)}})
+		}
+	}
 	// HAR captures: GET / non-GET entries, banned and pseudo headers, base64 bodies, repeated URLs,
 	// odd statuses, header values outside ASCII
 	nh := 30
@@ -549,6 +602,7 @@ func init() {
 	regOp("cli_chain", opCliChain)
 	regOp("cli_gen_har", opCliGenHar)
 	regOp("cli_sign_refuse", opCliSignRefuse)
+	regOp("cli_gen_primary", opCliGenPrimary)
 	regOp("escape_path", func(a []Sx) Sx { return B([]byte((&url.URL{Path: string(a[0].B)}).EscapedPath())) })
 	regGen("C20", genC20)
 }
